@@ -70,6 +70,7 @@ func Format(input []byte) []byte {
 		backquoted bool // whether we're in a backquoted segment
 		escaped    bool // whether current char is escaped
 		tokenEnded bool // whether previous char closed a quoted segment (the lexer starts a new token right after it)
+		continued  bool // whether the last character written is an escaped newline (the line goes on)
 
 		heredoc              heredocState // whether we're in a heredoc
 		heredocStart         bool         // whether the previous character was a '<' that begins a token
@@ -83,6 +84,7 @@ func Format(input []byte) []byte {
 	write := func(ch rune) {
 		out.WriteRune(ch)
 		last = ch
+		continued = false
 	}
 
 	indent := func() {
@@ -197,6 +199,7 @@ func Format(input []byte) []byte {
 				// an escaped newline separates tokens like any other
 				// white space: a quote right after it opens a string
 				space = true
+				continued = true
 			}
 			continue
 		}
@@ -297,7 +300,9 @@ func Format(input []byte) []byte {
 			continue
 
 		case ch == '}' && (spacePrior || !openBrace):
-			if last != '\n' {
+			// (an escaped newline does not end the line: if line
+			// breaks followed it, one of them has to be written)
+			if last != '\n' || (continued && newLines > 0) {
 				nextLine()
 			}
 			if nesting > 0 {
